@@ -16,15 +16,15 @@ import (
 
 // TLCOpts describes one TLC invocation.
 type TLCOpts struct {
-	Module  string            // module name without .tla (must be in SpecDir or Work)
-	Cfg     string            // config file name (relative to spec dir)
-	Workers int               // 0 = 8
-	Timeout time.Duration     // 0 = 5 min
-	Args    []string          // extra args (-dump ..., -simulate ...)
-	Env     map[string]string // extra env (TRACE=...)
-	DFS     bool              // use StateDeque (depth-first) queue
-	Deadlock bool             // check deadlock (default: off, -deadlock passed)
-	Heap    string            // e.g. "8g"
+	Module   string            // module name without .tla (must be in SpecDir or Work)
+	Cfg      string            // config file name (relative to spec dir)
+	Workers  int               // 0 = 8
+	Timeout  time.Duration     // 0 = 5 min
+	Args     []string          // extra args (-dump ..., -simulate ...)
+	Env      map[string]string // extra env (TRACE=...)
+	DFS      bool              // use StateDeque (depth-first) queue
+	Deadlock bool              // check deadlock (default: off, -deadlock passed)
+	Heap     string            // e.g. "8g"
 }
 
 // TLCResult is what was parsed out of a TLC run.
